@@ -1,7 +1,8 @@
 (* Executable model of comb_spec_searcher/isomorphism.py (Isomorphism, ParseTreeMap,
    Bijection) and of Constructor.equiv / extra_params_equiv
    (strategies/constructor/base.py), as the code is after the fix: commits 7890ace,
-   4c6d23b, e943cb6.  No proofs here.
+   4c6d23b, e943cb6 (and, with exact = true, after the repair proposed for the open finding
+   C12 asymmetric-check-with-chained-equivalences).  No proofs here.
 
    Specifications are finite maps  class label -> rule descriptor.  The descriptor
    holds exactly what isomorphism.py reads from a rule and its class:
@@ -192,8 +193,16 @@ Definition eq_path (s : spec) (n : Z) : res (list Z) :=
       else Ok [n]
   end.
 
+(* The pairs registered in _ancestors while the pair of current classes (c1, c2) is examined, and
+   looked up by the "recursive match" test:
+     exact = false   as /repo does: product(eq_path1, eq_path2);
+     exact = true    the repair proposed in findings/C12_asymmetric_check.diff: only (curr1, curr2).
+   Every theorem is proved for both; the harness selects the one the code under test implements. *)
+Definition anc_pairs (exact : bool) (p1 p2 : list Z) (c1 c2 : Z) : list (Z * Z) :=
+  if exact then [(c1, c2)] else list_prod p1 p2.
+
 (* _base_cases: -1 invalid, 0 unknown, 1 valid *)
-Definition base_cases (s : st) (p1 p2 : list Z) (c1 c2 : Z) (r1 r2 : rule) (ne1 ne2 : list Z) : res Z :=
+Definition base_cases (exact : bool) (s : st) (p1 p2 : list Z) (c1 c2 : Z) (r1 r2 : rule) (ne1 ne2 : list Z) : res Z :=
   if om_has (om s) (c1, c2) then Ok 1
   else if pair_in (c1, c2) (failed s) then Ok (-1)
   else if negb (Nat.eqb (length ne1) (length ne2)) then Ok (-1)
@@ -202,7 +211,7 @@ Definition base_cases (s : st) (p1 p2 : list Z) (c1 c2 : Z) (r1 r2 : rule) (ne1 
   else if negb (r_isrule r1 && r_isrule r2) then Raise 5
   else if negb (Bool.eqb (r_iseq r1) (r_iseq r2)) then Ok (-1)
   else if negb (ctor_equiv (r_ctor r1) (r_ctor r2)) then Ok (-1)
-  else if existsb (fun p => pair_in p (anc s)) (list_prod p1 p2) then Ok 1
+  else if existsb (fun p => pair_in p (anc s)) (anc_pairs exact p1 p2 c1 c2) then Ok 1
   else Ok 0.
 
 (* stack elements (i1, i2, in_use); the head of the list is the top of the stack *)
@@ -252,7 +261,7 @@ Fixpoint iso_loop (rec : st -> Z -> Z -> res (bool * st)) (g : nat)
   end.
 
 (* Isomorphism._are_isomorphic *)
-Fixpoint iso (s1 s2 : spec) (fuel : nat) (s : st) (n1 n2 : Z) : res (bool * st) :=
+Fixpoint iso (exact : bool) (s1 s2 : spec) (fuel : nat) (s : st) (n1 n2 : Z) : res (bool * st) :=
   match fuel with
   | O => OutOfFuel
   | S f =>
@@ -264,15 +273,15 @@ Fixpoint iso (s1 s2 : spec) (fuel : nat) (s : st) (n1 n2 : Z) : res (bool * st) 
       | Some r1, Some r2 =>
           let ne1 := ne_children s1 r1 in
           let ne2 := ne_children s2 r2 in
-          base_cases s p1 p2 c1 c2 r1 r2 ne1 ne2 >>= fun bc =>
+          base_cases exact s p1 p2 c1 c2 r1 r2 ne1 ne2 >>= fun bc =>
           if Z.eqb bc 1 then Ok (true, s)
           else if Z.eqb bc (-1) then Ok (false, s)
           else
-            let pr := list_prod p1 p2 in
+            let pr := anc_pairs exact p1 p2 c1 c2 in
             let sA := mkSt (set_add_all (anc s) pr) (om s) (failed s) in
             let n_matched := length (om s) in
             let n := length ne1 in
-            iso_loop (iso s1 s2 f) fuel ne1 ne2 n (init_stack n) [] (repeat (-1) n) sA >>= fun r =>
+            iso_loop (iso exact s1 s2 f) fuel ne1 ne2 n (init_stack n) [] (repeat (-1) n) sA >>= fun r =>
             match r with
             | (Some co, s') =>
                 Ok (true, mkSt (set_remove_all (anc s') pr) (om_set (om s') (c1, c2) co) (failed s'))
@@ -284,8 +293,8 @@ Fixpoint iso (s1 s2 : spec) (fuel : nat) (s : st) (n1 n2 : Z) : res (bool * st) 
   end.
 
 (* Isomorphism(spec1, spec2): _isomorphic and the state left behind *)
-Definition are_isomorphic (s1 s2 : spec) (fuel : nat) : res (bool * st) :=
-  iso s1 s2 fuel st0 (s_root s1) (s_root s2).
+Definition are_isomorphic (exact : bool) (s1 s2 : spec) (fuel : nat) : res (bool * st) :=
+  iso exact s1 s2 fuel st0 (s_root s1) (s_root s2).
 
 (* ------------------------------------------------------------------ ParseTreeMap *)
 Inductive tree : Type :=
